@@ -18,6 +18,9 @@ fn main() {
     let mut mode = arg_str(&args, "mode", "native").to_string();
     let mut only: Option<u64> = None;
     let verbose_flag = args.contains_key("verbose");
+    let mut strict_appendix_b = args.contains_key("strict-appendix-b");
+    let mut avoid_known = args.contains_key("avoid-known");
+    let mut huge_initial_window = args.contains_key("huge-initial-window");
 
     if let Some(path) = args.get("replay") {
         let text = match std::fs::read_to_string(path) {
@@ -46,6 +49,10 @@ fn main() {
             mode = m.to_string();
         }
         only = r.get("history").and_then(|c| c.as_u64());
+        let flag = |k: &str| r.get(k).and_then(|c| c.as_bool()).unwrap_or(false);
+        strict_appendix_b |= flag("strict_appendix_b");
+        avoid_known |= flag("avoid_known");
+        huge_initial_window |= flag("huge_initial_window");
         if only.is_none() {
             eprintln!("vq-cc: replay object lacks `history`");
             std::process::exit(3);
@@ -64,9 +71,9 @@ fn main() {
         miri,
         only,
         verbose: verbose_flag || only.is_some(),
-        strict_appendix_b: args.contains_key("strict-appendix-b"),
-        avoid_known: args.contains_key("avoid-known"),
-        huge_initial_window: args.contains_key("huge-initial-window"),
+        strict_appendix_b,
+        avoid_known,
+        huge_initial_window,
     };
 
     let mut sum = Summary::default();
